@@ -137,7 +137,7 @@ func (k *vfKube) vfStep(class, descr string, after *v1.Endpoints, fn func()) {
 	}
 	if changed {
 		k.c.Obs("kube_address_set_changes", 1)
-		if k.calls == calls0 {
+		if k.calls == calls0 && !k.c.Violated() { // a wrong list is reported as such, once
 			flag("not-published", "the address set changed but the update function was not called during "+descr)
 		}
 	}
@@ -224,6 +224,6 @@ func vfKubeHistory(c *kit.Case) {
 
 func TestVerifC13K(t *testing.T) {
 	logx.Disable()
-	kit.Run(t, "C13", "kube", kit.N(4000, 200000), vfKubeHistory)
+	kit.Run(t, "C13", "kube", kit.N(20000, 600000), vfKubeHistory)
 	kit.End()
 }
